@@ -38,7 +38,7 @@ func init() {
 	pd.RequiredProbes = append(pd.RequiredProbes, "http-handler-exercised", "cobra-command-exercised")
 }
 
-var c14httpKinds = []string{"build", "build-doc-damaged", "build-wrong-ctype", "build-empty", "build-badjson", "build-wrongtypes", "build-template", "verify", "verify-damaged", "verify-nokey", "verify-badkey", "key", "root", "bulk-garbage", "bulk-damaged", "unknown-route", "build-huge-type", "bulk-sign-nokey", "validate-head-nulls", "lib-sign-nil", "build-yaml-keys"}
+var c14httpKinds = []string{"build", "build-doc-damaged", "build-wrong-ctype", "build-empty", "build-badjson", "build-wrongtypes", "build-template", "verify", "verify-damaged", "verify-nokey", "verify-badkey", "key", "root", "bulk-garbage", "bulk-damaged", "unknown-route", "build-huge-type", "bulk-sign-nokey", "validate-head-nulls", "lib-sign-nil", "build-yaml-keys", "sign-other-key-kinds"}
 var c14cobraKinds = []string{"build", "build-envelop", "build-type", "build-set", "validate", "sign", "sign-nokey", "verify", "verify-nokeyfile", "correct-credit", "correct-data", "correct-baddata", "correct-options", "replicate", "bulk", "version", "unknown-flag", "keygen-stdout"}
 
 func planC14entry(c *Ctx, run int64) *Plan {
@@ -161,6 +161,25 @@ func execC14entry(x *X) {
 				path, body = "/bulk", append(js(map[string]any{"action": "validate", "req_id": "a", "payload": map[string]any{"data": data}}), []byte("\n{\"action\":\"build\",\"payload\":{\"data\":5}}\n")...)
 			case "unknown-route":
 				path = "/nope"
+			case "sign-other-key-kinds":
+				// valid private keys of kinds GOBL does not sign with, through the library and through bulk
+				x.faultClass = ""
+				kj := otherKindPrivJWK[int(op.J)%len(otherKindPrivJWK)]
+				x.guard("Envelope.Sign(other kind of key)", where, func() {
+					k := new(dsig.PrivateKey)
+					if err := json.Unmarshal([]byte(kj), k); err != nil {
+						return
+					}
+					env := new(gobl.Envelope)
+					if err := json.Unmarshal(d.Env, env); err != nil {
+						return
+					}
+					env.Signatures = nil
+					err := env.Sign(k)
+					x.checkGoblErr("Sign", where, err)
+					_, _ = dsig.NewSignature(k, map[string]string{"a": "b"})
+				})
+				path, body = "/bulk", append(js(map[string]any{"action": "sign", "req_id": "k", "payload": map[string]any{"data": docOnly, "privatekey": json.RawMessage(kj)}}), '\n')
 			case "build-yaml-keys":
 				// YAML input whose mappings have keys that are not strings, alone, under a template, as a template
 				x.faultClass = ""
